@@ -123,12 +123,36 @@ func main() {
 }
 `
 
+const supportImports = `
+import (
+	"context"
+
+	"github.com/hashicorp/terraform-plugin-framework/attr"
+	"github.com/hashicorp/terraform-plugin-framework/diag"
+	"github.com/hashicorp/terraform-plugin-framework/tfsdk"
+	"github.com/hashicorp/terraform-plugin-framework/types"
+)
+
+var _ attr.Value
+var _ diag.Diagnostics
+var _ = types.StringType
+`
+
 const supportExtra = `
 type Duration int64
 type MyString string
 type MyInt int32
 type StrCustom string
 type BoolCustom bool
+
+// MockValidator / UseMockValidator: a validator the configuration can name
+type MockValidator struct{}
+
+func UseMockValidator() tfsdk.AttributeValidator { return MockValidator{} }
+func (v MockValidator) Description(_ context.Context) string         { return "Mock validator" }
+func (v MockValidator) MarkdownDescription(_ context.Context) string { return "Mock validator" }
+func (v MockValidator) Validate(_ context.Context, req tfsdk.ValidateAttributeRequest, resp *tfsdk.ValidateAttributeResponse) {
+}
 `
 
 type BuildInfo struct {
@@ -185,9 +209,9 @@ func buildProgram(p *Program, pluginBin, out string, kl, km int) (*BuildInfo, er
 	must(err)
 	writeFile(filepath.Join(out, pkg, "support_time.go"), []byte(strings.Replace(string(sup), "package PKG", "package "+pkg, 1)))
 	if p.Support != "" {
-		writeFile(filepath.Join(out, pkg, "support_extra.go"), []byte("package "+pkg+"\n"+p.Support))
+		writeFile(filepath.Join(out, pkg, "support_extra.go"), []byte("package "+pkg+"\n"+supportImports+supportExtra+p.Support))
 	} else {
-		writeFile(filepath.Join(out, pkg, "support_extra.go"), []byte("package "+pkg+"\n"+supportExtra))
+		writeFile(filepath.Join(out, pkg, "support_extra.go"), []byte("package "+pkg+"\n"+supportImports+supportExtra))
 	}
 	writeFile(filepath.Join(out, "cmd/replay/main.go"), []byte(strings.ReplaceAll(replayMain, "PKG", pkg)))
 
@@ -200,6 +224,8 @@ func buildProgram(p *Program, pluginBin, out string, kl, km int) (*BuildInfo, er
 			switch fam {
 			case "rt":
 				g.harnessRT(r)
+			case "schema":
+				g.harnessSchema(r)
 			case "from":
 				g.harnessFrom(r)
 			case "echo":
@@ -212,7 +238,7 @@ func buildProgram(p *Program, pluginBin, out string, kl, km int) (*BuildInfo, er
 	info.Harnesses = g.hs
 	info.KL, info.KM = kl, km
 	imports := []string{`"context"`, `"time"`, `"github.com/hashicorp/terraform-plugin-framework/attr"`, `"github.com/hashicorp/terraform-plugin-framework/diag"`,
-		`"github.com/hashicorp/terraform-plugin-framework/types"`, `"` + modName + `/vrt"`}
+		`"github.com/hashicorp/terraform-plugin-framework/types"`, `"github.com/hashicorp/terraform-plugin-framework/tfsdk"`, `"` + modName + `/vrt"`}
 	writeFile(filepath.Join(out, pkg, "zz_spec.go"), []byte(g.file(pkg, imports)))
 	b, _ := json.MarshalIndent(info, "", " ")
 	writeFile(filepath.Join(out, "build.json"), b)
